@@ -117,11 +117,7 @@ func runFlushMust(c *Ctx, r *RuleRun) {
 		r.Undecided("-", "flusher", "", "DB.immutables / levelManager.flushToL0 / the goroutine started by Open not found")
 		return
 	}
-	isFlush := func(ins ssa.Instruction) bool {
-		cl, ok := ins.(*ssa.Call)
-		return ok && cl.Call.StaticCallee() == flush
-	}
-	md := NewMustDo(p, isFlush)
+	d := c.Dur()
 	n := 0
 	for _, f := range la.RoleRoots["F"] {
 		fn := p.FnName(f)
@@ -146,15 +142,17 @@ func runFlushMust(c *Ctx, r *RuleRun) {
 				return
 			}
 			n++
-			q := PathQuery{P: p, Fn: f, Starts: recvs, Avoid: md.Instr, Target: func(i ssa.Instruction) bool { return i == ssa.Instruction(cl) }}
+			// "a table was written, fsynced and renamed into place, with every error on the way checked" (error-aware: a
+			// flush whose failure is only logged does not count)
+			q := PathQuery{P: p, Fn: f, Starts: recvs, Avoid: d.tablePub.Avoid(f), EdgeOK: d.tablePub.EdgeOK(f), Target: func(i ssa.Instruction) bool { return i == ssa.Instruction(cl) }}
 			if len(recvs) == 0 {
 				q.Starts = nil
 			}
 			w := q.FindPath()
 			if w == nil {
-				r.Hold(fn, "flushed before it is dropped", p.Pos(instrPos(cl)), "every path from the receive to the removal writes the table first")
+				r.Hold(fn, "flushed before it is dropped", p.Pos(instrPos(cl)), "every path from the receive to the removal has published the table, errors checked")
 			} else {
-				r.Viol(fn, "flushed before it is dropped", p.Pos(instrPos(cl)), "a frozen memtable is removed from the list of immutables on a path that never wrote it to a table: its entries are in no memtable and no table any more (and its wal may already be gone)", p.describePath(w)...)
+				r.Viol(fn, "flushed before it is dropped", p.Pos(instrPos(cl)), "a frozen memtable is removed from the list of immutables on a path on which its table was not (successfully) written and published - e.g. after a flush error that is only logged: its entries are in no memtable and no table any more", p.describePath(w)...)
 			}
 		})
 	}
@@ -646,6 +644,11 @@ func runRecoverReplay(c *Ctx, r *RuleRun) {
 		} else {
 			r.Viol(fn, want.label, p.Pos(instrPos(entryLoop.header.Instrs[len(entryLoop.header.Instrs)-1])), want.viol, p.describePath(w)...)
 		}
+	}
+	if bad := leftElsewhere(*fileLoop); bad != nil && !entryLoop.body[bad] {
+		r.Viol(fn, "every older wal is replayed", p.Pos(instrPos(bad.Instrs[len(bad.Instrs)-1])), "the loop over the older wal files is left before all of them were replayed (break/return inside it): the commits in the remaining files are lost")
+	} else {
+		r.Hold(fn, "every older wal is replayed", p.Pos(instrPos(fileLoop.header.Instrs[len(fileLoop.header.Instrs)-1])), "the file loop is left only through its own condition")
 	}
 	if bad := leftElsewhere(*entryLoop); bad != nil {
 		r.Viol(fn, "every entry of a wal is visited", p.Pos(instrPos(bad.Instrs[len(bad.Instrs)-1])), "the loop over the entries of a wal is left before they are exhausted")
